@@ -260,23 +260,76 @@ fn invoke(inv: &McInv, twin: &StatsdClient, ev: &Counter2) {
                             {
                                 ev.tag.set(ev.tag.get() + 1);
                                 t[0].0.as_str()
-                            } => t[0].1.as_str()
+                            } => {
+                                ev.tag.set(ev.tag.get() + 1);
+                                t[0].1.as_str()
+                            }
                         );
                     }
                     twin.$meth(k, $val).with_tag(&t[0].0, &t[0].1).send();
                 }
                 2 => {
                     {
-                        cadence_macros::$mac!(k, $val, t[0].0.as_str() => t[0].1.as_str(), t[1].0.as_str() => {
-                            ev.tag.set(ev.tag.get() + 1);
-                            t[1].1.as_str()
-                        });
+                        cadence_macros::$mac!(
+                            {
+                                ev.key.set(ev.key.get() + 1);
+                                k
+                            },
+                            {
+                                ev.val.set(ev.val.get() + 1);
+                                $val
+                            },
+                            {
+                                ev.tag.set(ev.tag.get() + 1);
+                                t[0].0.as_str()
+                            } => {
+                                ev.tag.set(ev.tag.get() + 1);
+                                t[0].1.as_str()
+                            },
+                            {
+                                ev.tag.set(ev.tag.get() + 1);
+                                t[1].0.as_str()
+                            } => {
+                                ev.tag.set(ev.tag.get() + 1);
+                                t[1].1.as_str()
+                            }
+                        );
                     }
                     twin.$meth(k, $val).with_tag(&t[0].0, &t[0].1).with_tag(&t[1].0, &t[1].1).send();
                 }
                 _ => {
                     {
-                        cadence_macros::$mac!(k, $val, t[0].0.as_str() => t[0].1.as_str(), t[1].0.as_str() => t[1].1.as_str(), t[2].0.as_str() => t[2].1.as_str());
+                        cadence_macros::$mac!(
+                            {
+                                ev.key.set(ev.key.get() + 1);
+                                k
+                            },
+                            {
+                                ev.val.set(ev.val.get() + 1);
+                                $val
+                            },
+                            {
+                                ev.tag.set(ev.tag.get() + 1);
+                                t[0].0.as_str()
+                            } => {
+                                ev.tag.set(ev.tag.get() + 1);
+                                t[0].1.as_str()
+                            },
+                            {
+                                ev.tag.set(ev.tag.get() + 1);
+                                t[1].0.as_str()
+                            } => {
+                                ev.tag.set(ev.tag.get() + 1);
+                                t[1].1.as_str()
+                            },
+                            {
+                                ev.tag.set(ev.tag.get() + 1);
+                                t[2].0.as_str()
+                            } => {
+                                ev.tag.set(ev.tag.get() + 1);
+                                t[2].1.as_str()
+                            }
+                        );
                     }
                     twin.$meth(k, $val).with_tag(&t[0].0, &t[0].1).with_tag(&t[1].0, &t[1].1).with_tag(&t[2].0, &t[2].1).send();
                 }
@@ -424,9 +477,10 @@ pub fn child_run(case: &McCase) -> ChildReport {
             rep.refused += 1;
         }
         // each argument expression evaluated exactly once
-        let exp_key = if inv.n_tags <= 1 { 1 } else { 0 };
-        let exp_val = if inv.n_tags <= 1 { 1 } else { 0 };
-        let exp_tag = if inv.n_tags == 1 || inv.n_tags == 2 { 1 } else { 0 };
+        // every argument expression of the macro call is instrumented: key, value, each tag key and value
+        let exp_key = 1;
+        let exp_val = 1;
+        let exp_tag = 2 * inv.n_tags.min(3) as u32;
         if ev.key.get() != exp_key || ev.val.get() != exp_val || ev.tag.get() != exp_tag {
             viol(
                 "macro.argument-evaluated-not-once",
@@ -516,9 +570,10 @@ fn mt_prog(t: usize, prog: &[McInv], reentrant: bool, twin: &StatsdClient, la: &
         if ae.first().map(|e| !e.1).unwrap_or(false) {
             sh.probes.lock().unwrap().push("concurrent_refusal".into());
         }
-        let exp_key = if inv.n_tags <= 1 { 1 } else { 0 };
-        let exp_val = if inv.n_tags <= 1 { 1 } else { 0 };
-        let exp_tag = if inv.n_tags == 1 || inv.n_tags == 2 { 1 } else { 0 };
+        // every argument expression of the macro call is instrumented: key, value, each tag key and value
+        let exp_key = 1;
+        let exp_val = 1;
+        let exp_tag = 2 * inv.n_tags.min(3) as u32;
         if ev.key.get() != exp_key || ev.val.get() != exp_val || ev.tag.get() != exp_tag {
             viol("macro.argument-evaluated-not-once", format!("{what}: key expression evaluated {} times, value {} times, instrumented tag expression {} times (expected {exp_key}, {exp_val}, {exp_tag})", ev.key.get(), ev.val.get(), ev.tag.get()));
         }
@@ -570,7 +625,11 @@ fn concurrent_phase(case: &McCase, twin: &Arc<StatsdClient>, logs_a: &Arc<Mutex<
     }
     for t in &r.tasks {
         if let Some(p) = &t.panicked {
-            rep.violations.push(("macro.panicked-while-set".into(), format!("concurrent phase: task {} panicked: {p}", t.id)));
+            if t.name == "late-setter" {
+                rep.violations.push(("macro.late-set-panicked".into(), format!("concurrent phase: a redundant set_global_default panicked: {p}")));
+            } else {
+                rep.violations.push(("macro.panicked-while-set".into(), format!("concurrent phase: task {} panicked: {p}", t.id)));
+            }
         }
     }
     if r.main.is_none() && rep.violations.is_empty() {
@@ -775,6 +834,9 @@ impl Engine for E7 {
                 out.harness_error = Some(d.clone());
             } else if c == "macro.panicked-while-set" {
                 out.violate(&["C17", "C20"], c, d.clone());
+            } else if c == "macro.late-set-panicked" {
+                // "later sets are ignored and never disturb it" is C18's
+                out.violate(&["C18", "C20"], c, d.clone());
             } else {
                 out.violate(&["C17"], c, d.clone());
             }
